@@ -107,7 +107,7 @@ def gen(rng):
         'world': {'mounts': L['mounts'], 'steps': steps},
         'procs': [{'argv': ['trash-put', '--'] + args, 'env': env, 'cwd': rng.choice(['/', home]), 'uid': uid}],
         'dirsalt': rng.randrange(1 << 30),
-        'clock': {'start': start, 'tick_us': rng.choice([137, 400000, 0])},
+        'clock': {'start': start, 'tick_us': rng.choice([137, 400000, 0]), 'utcoffset_s': rng.choice([0, 3600, -18000, 19800, 34200, 50400, -43200])},
     }
 
 
